@@ -69,7 +69,9 @@ func cmdContinue(p *lang.Process) error {
 	scope := p.Scope.Id
 	proc := p.Parent
 	for {
-		if proc.Name.String() == name {
+		// only an enclosing block can be the target, not a following command
+		// that happens to have the same name (eg a nested loop)
+		if proc.Name.String() == name && proc.IsFork {
 			return nil
 		}
 		if proc.Id == scope {
